@@ -258,6 +258,8 @@ struct RecELoss
             auto cutoffs = track.make_cutoff_view();
             auto material = track.make_material_view();
             EnergyLossHelper helper(*fluct, cutoffs, material, particle, mean, step);
+            // state of the slot's RNG NOW (MSC may already have drawn numbers in this step)
+            saved = static_cast<NativeRef<RngStateData>*>(rng_states)->state[track.track_slot_id()];
             auto rng = track.make_rng_engine();
             // save / restore through the engine's own state accessors is not public: use a
             // scratch copy of the whole per-slot RNG state taken by the caller (see VAlongStep)
